@@ -65,19 +65,24 @@ func scenarioC18(c *hlib.RunCtx) *hlib.Violation {
 		}
 		return false
 	}
+	// A few dates per run, so that a day's directory (upload bucket layout), its
+	// date.json (merge layout) and start_end.json (chart layout) coexist as
+	// siblings whose names share prefixes.
+	dayPool := []int{refcal.DaysFromCivil(1990, 1, 1) + t.Draw(25567)}
+	dayPool = append(dayPool, dayPool[0]+1+t.Draw(9), dayPool[0]+10+t.Draw(300))
 	genName := func() string {
 		// names the services construct, or nested ordinary components
 		switch t.Draw(4) {
 		case 0:
-			day := refcal.DaysFromCivil(1990, 1, 1) + t.Draw(25567)
+			day := dayPool[t.Draw(len(dayPool))]
 			xs := []float64{0.5, 1e-05, 1e308, -1, 5e-324, 0.1234567890123, 123456789, 1}
 			return fmt.Sprintf("%s/%g.json", refcal.Date(day), xs[t.Draw(len(xs))])
 		case 1:
-			day := refcal.DaysFromCivil(1990, 1, 1) + t.Draw(25567)
+			day := dayPool[t.Draw(len(dayPool))]
 			if t.Bool(1, 2) {
 				return refcal.Date(day) + ".json"
 			}
-			return refcal.Date(day) + "_" + refcal.Date(day+t.Draw(30)) + ".json"
+			return refcal.Date(day) + "_" + refcal.Date(dayPool[t.Draw(len(dayPool))]+t.Draw(3)) + ".json"
 		default:
 			n := 1 + t.Draw(4)
 			var parts []string
@@ -159,12 +164,17 @@ func scenarioC18(c *hlib.RunCtx) *hlib.Violation {
 			s.Logf("op", "read %s", name)
 		case 3: // list with a prefix
 			prefix := ""
-			if len(model) > 0 && t.Bool(3, 4) {
-				keys := sortedKeys(model)
-				k := keys[t.Draw(len(keys))]
-				prefix = k[:t.Draw(len(k)+1)]
-			} else if t.Bool(1, 2) {
-				prefix = comps[t.Draw(len(comps))]
+			switch t.Draw(4) {
+			case 0, 1:
+				if len(model) > 0 {
+					keys := sortedKeys(model)
+					k := keys[t.Draw(len(keys))]
+					prefix = k[:t.Draw(len(k)+1)]
+				}
+			case 2:
+				prefix = comps[t.Draw(len(comps))] + []string{"", "/", "."}[t.Draw(3)]
+			case 3: // the prefixes the services use, and their neighbours
+				prefix = refcal.Date(dayPool[t.Draw(len(dayPool))]) + []string{"", "/", ".", "_", ".json", "-"}[t.Draw(6)]
 			}
 			it := bh.Objects(ctx, prefix)
 			var got []string
